@@ -65,7 +65,13 @@ def run(F, res, tier):
                 continue
             rv = reviewed.get("Q1/" + full)
             if rv:
-                res.ob("Q1", full, desc, True, where=f.loc(ln), how="reviewed: " + rv["reason"], reviewed=True)
+                guards = FL.guard_signature(F, f, b, defs)
+                if rv.get("guards", []) == guards:
+                    res.ob("Q1", full, desc, True, where=f.loc(ln), how="reviewed: %s [guards: %s]" % (rv["reason"], guards), reviewed=True)
+                else:
+                    res.ob("Q1", full, desc, False, where=f.loc(ln),
+                           how="the conditions guarding this reviewed site changed since it was reviewed: now %s, reviewed with %s (reason then: %s)"
+                           % (guards, rv.get("guards", []), rv["reason"]))
                 continue
             path = " <- ".join(x.rsplit("::", 1)[-1] for x in reversed(F.path_to(seen, p)[-4:]))
             res.ob("Q1", full, desc, False, where=f.loc(ln),
@@ -139,27 +145,130 @@ def run(F, res, tier):
         if not any(q in c for c in sccs):
             res.ob("Q3", "acyclic/" + q.rsplit("::", 1)[-1], "this query cannot reach itself through other queries", True,
                    where="crates/ide/src", how="not on a cycle of the query graph (%d queries)" % len(graph), nontrivial=False)
-    # ---- Q5: alias expansion is guarded
+    # ---- Q5: every recursive cycle of the call graph in crates ide is either structural on a finite tree
+    # (reviewed) or carries a checkable cycle cut
+    recursion(F, res, seen)
+
+
+TREE = {
+    "ide::def::body::BodyLowerCtx::lower_expr": "descends the syntax tree of one function body (finite; depth = nesting, see C02/P5)",
+    "ide::def::body::BodyLowerCtx::lower_pattern": "descends the syntax tree of one pattern",
+    "ide::def::module::typeref_from_ast": "descends the syntax tree of one type expression",
+    "ide::def::scope::ExprScopes::traverse_expr": "descends the Body arena along child ids; lowering allocates children before parents, so ids form a tree",
+    "ide::def::scope::ExprScopes::add_bindings": "descends the pattern arena along child ids (tree)",
+    "ide::ty::infer::InferCtx::infer_expr": "descends the Body arena along child ids (tree)",
+    "ide::ty::infer::InferCtx::infer_pattern": "descends the pattern arena along child ids (tree)",
+    "ide::ty::infer::InferCtx::make_type": "descends a frozen ide::ty::Ty value, a finite tree of Arcs built by Collector",
+    "<ide::ty::Ty as ide::ty::display::TyDisplay>::ty_fmt": "descends a frozen ide::ty::Ty value (finite tree)",
+    "ide::ty::union_find::UnionFind::<T>::find": "follows parent links, which unify() only ever sets from one root to another root: acyclic, depth bounded by union-by-rank",
+}
+
+
+def recursion(F, res, seen):
+    cg = F.callgraph()
+    nodes = [p for p in seen if p.startswith(("ide::", "<ide::"))]
+    index, low, on, stack, comps, cnt = {}, {}, set(), [], [], [0]
+    import sys
+    sys.setrecursionlimit(100000)
+
+    def sc(v):
+        index[v] = low[v] = cnt[0]
+        cnt[0] += 1
+        stack.append(v)
+        on.add(v)
+        for w in cg.get(v, ()):
+            if not w.startswith(("ide::", "<ide::")) or w not in seen:
+                continue
+            if w not in index:
+                sc(w)
+                low[v] = min(low[v], low[w])
+            elif w in on:
+                low[v] = min(low[v], index[w])
+        if low[v] == index[v]:
+            comp = []
+            while True:
+                w = stack.pop()
+                on.discard(w)
+                comp.append(w)
+                if w == v:
+                    break
+            if len(comp) > 1 or v in cg.get(v, ()):
+                comps.append(sorted(comp))
+    for v in sorted(nodes):
+        if v not in index:
+            sc(v)
+    res.floor("recursive cycles in crate ide reachable from the queries", len(comps), 10)
+    for comp in sorted(comps):
+        members = [m for m in comp if "{closure" not in m]
+        # derive(Clone/PartialEq/Hash) on a generic wrapper: recursion is on the type parameter, not on data
+        if all(F.fns[m].d.get("impl_trait", "").startswith("core::") and F.fns[m].d["span"]["exp"] for m in members):
+            continue
+        key = "+".join(m.rsplit("::", 1)[-1] for m in members)
+        tree = [m for m in members if m in TREE]
+        if tree:
+            res.ob("Q5", "recursion/" + key, "this recursive cycle terminates on every workspace", True, where=F.fns[members[0]].loc(),
+                   how="reviewed: structural recursion: " + TREE[tree[0]], reviewed=True)
+            continue
+        ok, why = False, "recursive cycle over data that may be cyclic and no cycle cut is known for it"
+        if "ide::ty::infer::InferCtx::unify_var_ty" in members:
+            ok, why = cut_unify(F)
+        elif "ide::ty::infer::Collector::collect" in members:
+            ok, why = cut_collect(F)
+        elif members == ["ide::ty::infer::InferCtx::make_ty_from_typeref"]:
+            ok, why = cut_alias(F)
+        res.ob("Q5", "recursion/" + key, "this recursive cycle terminates on every workspace (it walks a graph that can be cyclic, so it needs a cycle cut)",
+               ok, where=F.fns[members[0]].loc(), how=why)
+
+
+def cut_unify(F):
+    f = F.fn("ide::ty::infer::InferCtx::unify_var_ty")
+    d = FL.Defs(f)
+    rec = [b for b, t in f.calls() if callee(t) == "ide::ty::infer::InferCtx::unify"]
+    reps = []
+    for b, t in f.calls():
+        if FL.short(callee(t) or callee_def(t)) in ("mem::replace", "mem::take"):
+            o = d.origin_op(t["args"][0])
+            if o.get("k") == "call" and (callee(o["t"]) or "").endswith("UnionFind::<T>::get_mut"):
+                reps.append(b)
+    ok = bool(rec) and bool(reps) and all(any(f.dominates(r, c) for r in reps) for c in rec)
+    return ok, ("the variable's table entry is swapped for a placeholder (mem::replace on table.get_mut(var)) before unify() descends: "
+                "a cyclic type is met again as Unknown") if ok else \
+        "unify_var_ty calls unify() without first replacing the variable's entry by a placeholder: unifying a cyclic type twice never returns"
+
+
+def cut_collect(F):
+    f = F.fn("ide::ty::infer::Collector::collect")
+    d = FL.Defs(f)
+    rec = [b for b, t in f.calls() if callee(t) == "ide::ty::infer::Collector::collect_uncached"]
+    stores = []
+    for b, i, s in f.stmts():
+        if s["k"] == "assign" and s["place"]["p"] == ["*"]:
+            o = d.origin(s["place"]["l"])
+            if o.get("k") == "call" and FL.short(callee(o["t"]) or callee_def(o["t"])) == "IndexMut::index_mut":
+                stores.append(b)
+    hit = [g for b in rec for g in FL.gates(F, f, [b], d) if g["kind"] == "enum" and g["allowed"] == ["None"]]
+    ok = bool(rec) and any(f.dominates(s_, rec[0]) for s_ in stores) and bool(hit)
+    return ok, ("collect() returns the cached value if there is one and stores a placeholder in cache[i] before it descends" if ok else
+                "collect() descends without a cache hit test / placeholder store before collect_uncached")
+
+
+def cut_alias(F):
     mk = F.fn("ide::ty::infer::InferCtx::make_ty_from_typeref")
     d = FL.Defs(mk)
     rec = [(b, t) for b, t in mk.calls() if callee(t) == mk.path]
     alias_rec = []
     for b, t in rec:
-        # the recursive call that expands an alias body: its TypeRef argument comes from TypeAlias::data(..).body
         o = d.origin_op(t["args"][1], FL.PASS_THROUGH + ("Option::<T>::filter",))
         base = o
         while base.get("k") == "field":
             base = base["base"]
         if base.get("k") == "call" and (callee(base["t"]) or "").endswith("TypeAlias::data"):
             alias_rec.append(b)
-    guarded = bool(alias_rec)
-    for b in alias_rec:
-        gs = FL.gates(F, mk, [b], d)
-        if not any("contains" in (g.get("callee") or "") or "contains" in str(g.get("origin", {}).get("via", "")) for g in gs):
-            # the guard may be folded into Option::filter(closure): look for a contains() in a closure of this function
-            clos = [F.fns[c] for c in F.closures_of(mk.path)]
-            if not any(FL.short(callee(t2) or callee_def(t2)).endswith("contains") for c in clos for _, t2 in c.calls()):
-                guarded = False
+    clos = [F.fns[c] for c in F.closures_of(mk.path)]
+    guard = any(FL.short(callee(t2) or callee_def(t2)).endswith("contains") for c in clos for _, t2 in c.calls()) or \
+        any(FL.short(callee(t2) or callee_def(t2)).endswith("contains") for _, t2 in mk.calls())
     pushes = [b for b, t in mk.calls() if FL.short(callee(t) or callee_def(t)) == "Vec::push" and "TypeAliasId" in str((t.get("fn") or {}).get("targs"))]
-    res.ob("Q5", "alias-expansion-guard", "expanding a type alias is cut when the alias is already being expanded (recursive aliases terminate)",
-           guarded and bool(pushes), where=mk.loc(), how="alias-body recursion sites %d, visited-stack pushes %d, guard found: %s" % (len(alias_rec), len(pushes), guarded))
+    ok = bool(alias_rec) and guard and bool(pushes) and all(any(mk.dominates(p_, a) for p_ in pushes) for a in alias_rec)
+    return ok, ("the other recursive calls descend a TypeRef tree; expanding a type alias pushes it on alias_stack first and is skipped when "
+                "the alias is already on it" if ok else
+                "alias expansion recurses into the alias body without a visited-stack test: a recursive alias never terminates")
